@@ -51,6 +51,9 @@ CHECKS["C17"] = dict(tech="TLC exhaustive model checking of Sampling.tla (Distin
 CHECKS["C08"] = dict(tech="TLC exhaustive enumeration of Effects.tla histories (Frame, Functional over all sequences up to length 3 of run / run-with-programs / other-project / deepcopy / pickle / save-load / fresh-process operations on two projects) + execution of the histories on real projects + TLC validation of the digest trace (EffectsTrace.tla: Frame, Functional across histories and processes)",
                      text="Every API operation is an action with an explicit frame and an uninterpreted result function of the input contents; TLC enumerates the histories, the harness executes them on library and generated projects (incl. output-only function parameters without dependencies, multi-component characteristics, timed compartments), digests every input before and after every call and every result, also from fresh interpreters with different hash seeds, and TLC checks that the memo table inputs -> result stays single-valued and no input changed.",
                      ref="DESIGN.md section 6 C08", note="Trusted base: TLC; the structural digest walker (bitwise on arrays; metadata fields skipped); histories of length 3 are sampled in the quick tier (all in thorough).")
+CHECKS["C10"] = dict(tech="TLC model checking of Engine.tla invariant C10_StartupNoop (the start-up sequence of a run is a no-op on an already flushed state, every R1 grid state and every R2 behaviour) + paired real runs (original vs restart at every sampled grid year, chains of two restarts, in memory and through the calibration spreadsheet) validated by TLC (PairTrace.tla)",
+                     text="In the specification the continuation is a function of the saved state (rows included) because re-running parameters / initial flush / parameters / links on a flushed state changes nothing - checked by TLC on all engine worlds. On the real code every compartment row, flow row, characteristic and parameter of the restarted run is compared by TLC with the tail of the original (1e-12 relative when the two time grids coincide bitwise, 1e-9 otherwise and for the spreadsheet path), for generated worlds (junctions, timed groups, residual junctions, transfers, time-varying parameters) and library models with programs active before / after the restart year.",
+                     ref="DESIGN.md section 6 C10", note=ENGINE_NOTE)
 NOT_YET = {}
 
 
@@ -63,7 +66,7 @@ def main():
         if pid in CHECKS:
             c = CHECKS[pid]
             checks.append(dict(property_id=pid, quick_cmd="./check %s --tier quick" % pid, thorough_cmd="./check %s --tier thorough" % pid,
-                               evidence_file="evidence/%s.json" % pid, replay_cmd_template="./check %s --replay {path}" % pid, engine="tla-engine" if pid in ("C01", "C02", "C03", "C04", "C05") else "tla-pure",
+                               evidence_file="evidence/%s.json" % pid, replay_cmd_template="./check %s --replay {path}" % pid, engine="tla-engine" if pid in ("C01", "C02", "C03", "C04", "C05", "C10") else "tla-pure",
                                level_claimed=dict(category="model_checking", text=c["text"], design_ref=c["ref"]), level_note=c.get("note", ENGINE_NOTE), technique=c["tech"]))
         else:
             na.append(dict(property_id=pid, reason=NOT_YET.get(pid, "check under construction in this session: specification module and conformance harness not committed yet (the technique applies; see DESIGN.md section 6 %s)" % pid)))
@@ -71,7 +74,7 @@ def main():
              setup_cmd="./setup.sh",
              hooks=dict(guard="ATOMICA_VERIF", enable="no source hooks: observation is by run-time wrappers installed by harness/observe.py (ATOMICA_VERIF=1 is exported by ./check for completeness)",
                         baseline_off_cmd="cd /repo && /venv/bin/python -m pytest -ra -q -p no:cacheprovider --timeout=900 --continue-on-collection-errors", source_commits=[], add_only=True),
-             engines=[dict(name="tla-engine", path="spec/Engine.tla", serves_properties=["C01", "C02", "C03", "C04", "C05"], kind_free_text="explicit TLA+ specification of the integration loop, TLC exhaustive + replay + trace validation"),
+             engines=[dict(name="tla-engine", path="spec/Engine.tla", serves_properties=["C01", "C02", "C03", "C04", "C05", "C10"], kind_free_text="explicit TLA+ specification of the integration loop, TLC exhaustive + replay + trace validation"),
                       dict(name="tla-pure", path="spec/", serves_properties=["C07", "C08", "C11", "C12", "C14", "C15", "C17", "C19"], kind_free_text="per-mechanism TLA+ modules (case enumeration + theorems checked by TLC) with a trace module that judges the values returned by the real code")],
              checks=checks, not_applicable=na,
              notes="Eleven genuine defects repaired in /repo with 'fix:' commits (see known_findings.json). Exit codes: 0 held, 1 violation, 2 machinery failure.")
